@@ -4,7 +4,7 @@ package board
 // Position.Move must accept exactly the legal ones and produce the successor of the rules.
 
 // tierSquare: the thorough tier takes all 64 values of a case-split square; the quick tier
-// takes eight of them (corners, king home squares, one square on each pawn start rank, centre), rotated by VERIF_SEED.
+// takes eight of them (king home squares, one square on each pawn start rank, one on each of ranks 1, 4, 5, 8 with its file rotated by VERIF_SEED).
 func tierSquare(sq uint64) bool {
 	if !verifQuick() {
 		return true
@@ -14,8 +14,10 @@ func tierSquare(sq uint64) bool {
 	if sq == 3 || sq == 59 || sq == 12 || sq == 51 {
 		return true
 	}
-	s := (sq + 64 - verifSeed()%64) % 64
-	return s == 0 || s == 28 || s == 39 || s == 63
+	// one square on each of the ranks 1, 4, 5 and 8 (en passant captures only start on ranks 4
+	// and 5), its file rotated by the seed
+	r := verifSeed() % 8
+	return sq == r || sq == 24+(4+r)%8 || sq == 32+(7+r)%8 || sq == 56+(7+r)%8
 }
 
 var refKingStep = [8]int{1, 9, 8, 7, -1, -9, -8, -7}
